@@ -293,6 +293,23 @@ theorem span_scope_spec (E : Ext) (t : Trace) (conds : List Cond) :
   | nil => simp
   | cons c cs => simp [spanLoop_eq_any]
 
+/-- **has_root_span_not_in_span_scope** (rules_conditions.md: "`has-root-span` cannot be used with
+`Scope: span` … the rule [will] fail evaluation and be skipped") — a span-scoped rule containing a
+`has-root-span` condition never matches. -/
+theorem has_root_span_not_in_span_scope (E : Ext) (t : Trace) (conds : List Cond) (c : Cond)
+    (hc : c ∈ conds) (hop : c.op = .hasRootSpan) : matchSpan E t conds = false := by
+  have hcell : ∀ s, condOnSpan E t c s = false := by
+    intro s
+    unfold condOnSpan condValue matcherOf
+    have hm : matcher E c = none := by simp [matcher, hop]
+    cases initErr c <;> cases (extract t s c).ex <;> simp [hm, untyped, hop]
+  have hne : conds.isEmpty = false := by cases conds <;> simp at hc ⊢
+  rw [span_scope_spec, hne, Bool.false_or, List.any_eq_false]
+  intro s _
+  simp only [Bool.not_eq_true]
+  rw [List.all_eq_false]
+  exact ⟨c, hc, by simp [hcell s]⟩
+
 /-! ## the rule loop -/
 
 /-- **first_match** — the decision is that of the first rule, in configuration order, that matches;
